@@ -213,6 +213,21 @@ func par1(c *Ctx) {
 				can["<unconditional>"] = true
 			}
 		} else if !isC {
+			// `return starters[p.token().Typ]`: a read-only package-level map from kinds to true
+			if lk, isLk := r.Results[0].(*ssa.Lookup); isLk && !lk.CommaOk {
+				if b, okF := fieldOf(lk.Index, "Typ"); okF && c.isNamed(b.Type(), "internal/lexer", "Token") {
+					if ld, isLd := lk.X.(*ssa.UnOp); isLd {
+						if g, isG := ld.X.(*ssa.Global); isG && readOnlyTable(c, g) == "" {
+							if ks, okK := mapTableTrueKeys(g); okK {
+								for _, k := range ks {
+									can[k] = true
+								}
+								continue
+							}
+						}
+					}
+				}
+			}
 			can["<non-constant>"] = true
 		}
 	}
@@ -243,6 +258,45 @@ func par1(c *Ctx) {
 	c.Check(sameSet(consumed, declared) && len(declared) > 0, "kinds(parser)=kinds(lexer)", token.NoPos,
 		fmt.Sprintf("the parser can consume all %d declared token kinds", len(declared)),
 		fmt.Sprintf("declared {%s} but the parser consumes {%s}", setStr(declared), setStr(consumed)))
+}
+
+// mapTableTrueKeys: the constant string keys the package initialiser maps to true in the map literal
+// stored into g (ok is false if an entry is not of that form).
+func mapTableTrueKeys(g *ssa.Global) (keys []string, ok bool) {
+	init, _ := g.Pkg.Members["init"].(*ssa.Function)
+	if init == nil {
+		return nil, false
+	}
+	ok = true
+	ir.Instrs(init, func(in ssa.Instruction) {
+		mu, isMu := in.(*ssa.MapUpdate)
+		if !isMu {
+			return
+		}
+		mk, isMk := mu.Map.(*ssa.MakeMap)
+		if !isMk {
+			return
+		}
+		stored := false
+		for _, u := range *mk.Referrers() {
+			if st, isSt := u.(*ssa.Store); isSt && st.Addr == ssa.Value(g) {
+				stored = true
+			}
+		}
+		if !stored {
+			return
+		}
+		k, isS := ir.ConstString(mu.Key)
+		v, isB := ir.ConstBool(mu.Value)
+		if !isS || !isB {
+			ok = false
+			return
+		}
+		if v {
+			keys = append(keys, k)
+		}
+	})
+	return keys, ok && len(keys) > 0
 }
 
 // tableKinds: v is the element, in a loop over all indices, of a package-level array or slice that
@@ -1309,61 +1363,95 @@ func par6(c *Ctx) {
 			}
 		}
 	}
-	// choice
+	// choice: executed symbolically with found(`|`) answering T..TF
 	{
 		f := p.choice
 		c.Mark(f)
-		var problems []string
-		var add *ssa.Function
-		for _, an := range f.AnonFuncs {
-			add = an
+		for more := 0; more <= 2; more++ {
+			key := fmt.Sprintf("%s:alternation[more=%d]", Q(f), more)
+			events, res, err := c.runChoice(p, more)
+			if err != "" {
+				c.Undecided(key, f.Pos(), "cannot execute choice symbolically: %s", err)
+				continue
+			}
+			var want []string
+			for i := 1; i <= more+1; i++ {
+				if i > 1 {
+					want = append(want, "found(Choice)=true")
+				}
+				// the two shortcuts of one alternative touch different states: their order is immaterial
+				want = append(want, fmt.Sprintf("atom#%d", i), fmt.Sprintf("T(e#%d,shortcut,st#2)", i), fmt.Sprintf("T(st#1,shortcut,s#%d)", i))
+			}
+			want = append(want, "found(Choice)=false")
+			got := strings.Join(events, " ")
+			exp := strings.Join(want, " ")
+			c.Check(got == exp && res == "(st#1,st#2)", key, f.Pos(), fmt.Sprintf("%s => %s", got, res),
+				fmt.Sprintf("behaves as [%s] => %s, expected [%s] => (st#1,st#2) (every alternative hangs between a common start and a common end by shortcuts; alternatives are separated by `|`)", got, res, exp))
 		}
-		if add == nil || len(add.Params) != 2 {
-			problems = append(problems, "no wiring closure")
-		} else {
-			c.Mark(add)
-			es := c.shortcutEdges(add)
-			in, out := false, false
-			for _, e := range es {
-				if ld, isLd := e.from.(*ssa.UnOp); isLd && ir.CellAlloc(ld.X) != nil && e.to == ssa.Value(add.Params[0]) {
-					in = true
-				}
-				if ld, isLd := e.to.(*ssa.UnOp); isLd && ir.CellAlloc(ld.X) != nil && e.from == ssa.Value(add.Params[1]) {
-					out = true
-				}
-			}
-			if !in || !out || len(es) != 2 {
-				problems = append(problems, "an alternative is not wired start->s and e->end by shortcuts")
-			}
-			atoms := callsTo(f, p.atom)
-			if len(atoms) < 2 {
-				problems = append(problems, "expected a first alternative and further ones in a loop")
-			}
-			for _, av := range atoms {
-				wired := false
-				for _, call := range ir.Calls(f) {
-					if ir.Static(call) == add && call.Common().Args[0] == extractOf(av, 0) && call.Common().Args[1] == extractOf(av, 1) {
-						wired = true
-					}
-				}
-				if !wired {
-					problems = append(problems, "an alternative is parsed but not wired in")
-				}
-				if ir.InLoop(av.Block()) {
-					okCond := false
-					for _, fc := range callsTo(f, p.found) {
-						if k, _ := kindArg(fc); k == "Choice" && ir.HoldsAt(fc, true, av.Block()) {
-							okCond = true
-						}
-					}
-					if !okCond {
-						problems = append(problems, "further alternatives are not introduced by `|`")
-					}
-				}
-			}
-		}
-		reportP(c, Q(f)+":alternation", f.Pos(), problems, "every alternative hangs between a common start and a common end; alternatives are separated by `|`")
 	}
+}
+
+// runChoice interprets choice() with found(Choice) answering true `more` times and then false. Events
+// between two atoms are sorted (the two shortcut edges of one alternative are independent).
+func (c *Ctx) runChoice(p *parserFns, more int) (events []string, res string, err string) {
+	newState := c.fnOpt("internal/fsm", "NewState")
+	newShortcut := c.fnOpt("internal/matcher", "NewShortcut")
+	tfn := c.fnOpt("internal/fsm", "State.T")
+	nFound, nAtom, nState := 0, 0, 0
+	m := &symMachine{}
+	m.onCall = func(m *symMachine, call ssa.CallInstruction, callee *ssa.Function, args []symVal) (symVal, bool) {
+		switch callee {
+		case p.found:
+			cv, _ := call.(*ssa.Call)
+			k := ""
+			if cv != nil {
+				k, _ = kindArg(cv)
+			}
+			if k != "Choice" {
+				m.fail("found(%s) in choice", k)
+				return false, true
+			}
+			nFound++
+			ans := nFound <= more
+			m.event("found(Choice)=%v", ans)
+			return ans, true
+		case p.atom:
+			nAtom++
+			m.event("atom#%d", nAtom)
+			return []symVal{fmt.Sprintf("s#%d", nAtom), fmt.Sprintf("e#%d", nAtom)}, true
+		case newState:
+			nState++
+			return fmt.Sprintf("st#%d", nState), true
+		case newShortcut:
+			return "shortcut", true
+		case tfn:
+			if len(args) == 3 {
+				m.event("T(%s,%s,%s)", symStr(args[0]), symStr(args[1]), symStr(args[2]))
+				return args[0], true
+			}
+		}
+		return nil, false
+	}
+	out := m.run(p.choice, []symVal{"p"}, nil)
+	if m.err != "" {
+		return nil, "", m.err
+	}
+	var cur []string
+	flush := func() {
+		sort.Strings(cur)
+		events = append(events, cur...)
+		cur = nil
+	}
+	for _, e := range m.events {
+		if strings.HasPrefix(e, "T(") {
+			cur = append(cur, e)
+			continue
+		}
+		flush()
+		events = append(events, e)
+	}
+	flush()
+	return events, symStr(symVal(out)), ""
 }
 
 func phiHas(v, want ssa.Value) bool {
@@ -1409,18 +1497,28 @@ func par7(c *Ctx) {
 			okSeq = true
 		}
 	}
-	firstAtom := false
-	for _, av := range callsTo(p.choice, p.atom) {
-		if av.Block() == p.choice.Blocks[0] {
-			firstAtom = true
+	firstAtom, okCh := true, true
+	for more := 0; more <= 2; more++ {
+		events, _, err := c.runChoice(p, more)
+		if err != "" || len(events) == 0 || events[0] != "atom#1" {
+			firstAtom = false
+		}
+		// between two atoms a `|` was consumed
+		prevAtom := false
+		for _, e := range events {
+			if strings.HasPrefix(e, "atom#") {
+				if prevAtom {
+					okCh = false
+				}
+				prevAtom = true
+			} else if e == "found(Choice)=true" {
+				prevAtom = false
+			}
+		}
+		if err != "" {
+			okCh = false
 		}
 	}
 	c.Check(okSeq && firstAtom, Q(p.seq)+":loop", p.seq.Pos(), "each iteration parses a choice, whose first action is an atom (consumes: PAR-2)", "the sequence loop can iterate without consuming")
-	okCh := false
-	for _, fc := range callsTo(p.choice, p.found) {
-		if ir.InLoop(fc.Block()) {
-			okCh = true
-		}
-	}
-	c.Check(okCh, Q(p.choice)+":loop", p.choice.Pos(), "the loop condition itself consumes a `|`", "the alternation loop does not consume in its condition")
+	c.Check(okCh, Q(p.choice)+":loop", p.choice.Pos(), "a further alternative is parsed only after a `|` was consumed", "the alternation loop does not consume a `|` before parsing another alternative")
 }
